@@ -142,7 +142,7 @@ def leading_zero_pins():
     return h
 
 
-def two_cards():
+def two_cards(objects=False):
     """one pin block object without a card number of its own, asked for the PVV of two different cards one after the other"""
     def h():
         pb = P().pinblock
@@ -160,11 +160,16 @@ def two_cards():
             cts.append(ct)
 
         def rp():
-            return {'kind': 'two_cards', 'args': {'pin': concretize_str(pin, ev), 'pans': [concretize_str(p, ev) for p in pans], 'key': concretize_str(key, ev)}}
+            return {'kind': 'two_cards', 'args': {'pin': concretize_str(pin, ev), 'pans': [concretize_str(p, ev) for p in pans], 'key': concretize_str(key, ev),
+                                                  'objects': objects}}
         core.set_fallback(rp, 'C14/concretised')
         with guard('to_pvv', 'C14/pvv-exception/pin4', rp):
-            obj = pb.Iso4AESPinBlockWithVisaPVV(pin)
-            outs = [obj.to_pvv(key, card_number=pan) for pan in pans]
+            if objects:
+                # two block objects that carry their own card number (same PIN, key and index), asked without the argument
+                outs = [pb.Iso0TDESPinBlockWithVisaPVV(pin, card_number=pan).to_pvv(key) for pan in pans]
+            else:
+                obj = pb.Iso4AESPinBlockWithVisaPVV(pin)
+                outs = [obj.to_pvv(key, card_number=pan) for pan in pans]
         for k, (out, ct) in enumerate(zip(outs, cts)):
             out = SymStr.of(out)
             require(len(out.cells) == 4, 'PVV has %d digits' % len(out.cells), key='C14/pvv-length', replay=rp)
@@ -262,6 +267,8 @@ def obligations(tier):
             obs.append(Ob('pvv/function/16-symbolic/pattern-%x' % s, pvv(16, None, 'function', split=s), 3000,
                           'all 16 ciphertext hex digits arbitrary; worker handles digit/letter pattern %s of the first four' % format(s, '04b'), _funcs))
     obs.append(Ob('tsp/leading-zero-pins', leading_zero_pins(), 60, 'seven concrete PINs with leading zeros (4..12 digits) x three PANs x key index 0/1/9', _funcs))
+    obs.append(Ob('pvv/mixin/two-objects-own-card-numbers', two_cards(objects=True), 300,
+                  'two Iso0 PVV block objects with the same PIN, key and index and different card numbers of their own, to_pvv without the argument', _funcs))
     obs.append(Ob('pvv/mixin/two-cards-one-object', two_cards(), 300,
                   'format-4 block object (no card number of its own): to_pvv for two symbolic 16-digit card numbers in a row; ciphertexts of the pattern dddd ffffffffffff', _funcs))
     return obs
